@@ -18,6 +18,10 @@ import VsgModel.Engine.ApplyRules
 import VsgProofs.Lemmas.Lex
 import VsgProofs.Lemmas.Lines
 import VsgProofs.Lemmas.ApplyRules
+-- >>> WP1 layer P
+import VsgModel.Generated.ClassifyProg
+import VsgProofs.Lemmas.ProgThms
+-- <<< WP1 layer P
 namespace Vsgm.C04
 open Vsgm Vsgm.Lex
 
@@ -397,3 +401,77 @@ example : classifyLine pyTables ⟨false, false, false⟩ ⟨true, false⟩ "a -
       ⟨false, false⟩) := by decide +kernel
 
 end Vsgm.C04
+
+-- >>> WP1 layer P: the classifier productions as a program table (generic over the table)
+namespace Vsgm.C04
+open Vsgm.Prog
+
+/-- **productions, length (unconditional)**: for every program table, fuel, function and arguments, the number
+    of tokens after a call is the number before plus the executed `insert`s minus the executed `pop`s on the
+    token list (ghost counters of the interpreter) — also when the call ends in an exception -/
+theorem prog_call_length (S : Sys) (n f : Nat) (args : List Val) (st : State) :
+    let st' := ((run S n).call f args st).2
+    st'.toks.size + st'.nDel + st.nIns = st.toks.size + st.nDel + st'.nIns :=
+  call_length S n f args st
+
+/-- **productions, length (syntactic)**: if no function of the table contains `pop` / `insert` / `append` of
+    anything but a string literal, a call never changes the number of tokens -/
+theorem prog_call_length_noLen (S : Sys) (htab : ∀ fd ∈ S.funs.toList, fd.ok Chk.noLen = true)
+    (n f : Nat) (args : List Val) (st : State) :
+    let st' := ((run S n).call f args st).2
+    st'.toks.size = st.toks.size ∧ st'.nIns = st.nIns ∧ st'.nDel = st.nDel :=
+  call_length_noLen S htab n f args st
+
+/-- the functions of the GENERATED table that can change the number of tokens (positions in `progTable`):
+    the token-list filters of `utils.py` used by rules, the line-level classifiers, and — the only ones reachable
+    from `design_file.tokenize` — `classify.instantiated_unit.classify_entity_name` and the selected-name builders
+    of `classify/utils.py` -/
+def progLenChanging : List Nat := [56, 58, 59, 60, 61, 67, 82, 83, 134, 155, 302, 385, 528, 530, 531, 532, 533, 534]
+
+theorem progTable_noLen_failing :
+    failing Chk.noLen (Gen.Prog.progTable.map (·.2)) = progLenChanging := by decide +kernel
+
+/-- with those functions made opaque, the generated table satisfies the hypothesis of `prog_call_length_noLen` -/
+theorem progTable_masked_noLen :
+    (maskTable progLenChanging (Gen.Prog.progTable.map (·.2))).all (fun fd => fd.ok Chk.noLen) = true := by
+  decide +kernel
+
+/-- non-vacuity: the hypothesis of `prog_call_length_noLen` holds for every system whose table is the masked
+    generated table (542 translated functions) -/
+example (S : Sys) (h : S.funs = (maskTable progLenChanging (Gen.Prog.progTable.map (·.2))).toArray) :
+    ∀ fd ∈ S.funs.toList, fd.ok Chk.noLen = true := by
+  intro fd hfd
+  rw [h] at hfd
+  have := progTable_masked_noLen
+  rw [List.all_eq_true] at this
+  exact this fd (by simpa using hfd)
+
+/-- a two-statement program: `lObjects[i] = token(lObjects[i].get_value())`, the store of `utils.assign_next_token` -/
+def demoFun : FunDef := { nparams := 3, nlocals := 3, body := [.retag 0 1 2 true, .ret (.binop .add (.var 1) (.int 1))] }
+
+/-- class 7 ignores its argument (`def __init__(self, sString=";")`), every other class keeps it -/
+def demoSys : Sys :=
+  { funs := #[demoFun], globals := [], isa := fun _ _ => false
+    ctor1 := fun c => if c = 7 then .fixed [';'] [';'] else .keep
+    ctor0 := fun c => if c = 7 then some ([';'], [';']) else none
+    ctorOdd := fun _ => false, lowerS := id, isDigitC := fun _ => false, isSpaceC := fun _ => false
+    clsModule := fun _ => [], modName := fun _ => [], modAttr := fun _ _ => none, regex := fun _ _ _ => none }
+
+def demoToks : Array Classify.CTok := #[{ cls := 24, val := ['x'], lower := ['x'] }, { cls := 24, val := ['y'], lower := ['y'] }]
+
+/-- the interpreter runs in the kernel: a value-keeping class re-tags token 1 and keeps its text … -/
+example : (((run demoSys 6).call 0 [.toks, .int 1, .cls 9] (initState demoSys demoToks)).2.toks.toList.map
+    fun t => (t.cls, t.val)) = [(24, ['x']), (9, ['y'])] := by decide +kernel
+
+/-- … a fixed-value class REPLACES the text (`semicolon("x")` is `;`): the model says exactly what Python does;
+    on the corpus, the variants and the corrupted inputs of `./check PROG` the real productions never do this -/
+example : (((run demoSys 6).call 0 [.toks, .int 0, .cls 7] (initState demoSys demoToks)).2.toks.toList.map
+    fun t => (t.cls, t.val)) = [(7, [';']), (24, ['y'])] := by decide +kernel
+
+/-- out of range: IndexError, nothing written -/
+example : (match ((run demoSys 6).call 0 [.toks, .int 2, .cls 9] (initState demoSys demoToks)).1 with
+    | .error e => some e | .ok _ => none) = some (.py .indexError) := by
+  decide +kernel
+
+end Vsgm.C04
+-- <<< WP1 layer P
